@@ -4,6 +4,7 @@
 //	c15 one                                                     (child of replay -isolate; case on stdin)
 //	c15 random   -n N -out TRACE -res R                         seeded concurrent scenarios, perturbed
 //	c15 directed -out TRACE -res R [-bound SECONDS]             directed schedules (gates), incl. D2/D3
+//	c15 reent    -cells F -out TRACE -res R [-par N]            re-entrant components (Reentry.tla cells), one subprocess each
 //
 // Go only executes and projects; the expected behaviour lives in specs/Lifecycle/*.tla.
 package main
@@ -30,6 +31,10 @@ func main() {
 		randomMain(os.Args[2:])
 	case "directed":
 		directedMain(os.Args[2:])
+	case "reent":
+		reentMain(os.Args[2:])
+	case "reentone":
+		reentOneMain(os.Args[2:])
 	default:
 		os.Exit(3)
 	}
